@@ -5,6 +5,7 @@ package types
 
 import (
 	"math/big"
+	"strings"
 
 	"github.com/ethereum/go-ethereum/common"
 	ethtypes "github.com/ethereum/go-ethereum/core/types"
@@ -143,5 +144,45 @@ func VerifC18_Fees() {
 	zz.Assert(zz.BigEq(price, wantPrice), "effective gas price = min(tip + base fee, fee cap) (gas price for legacy types)")
 	zz.Assert(zz.BigEq(txData.EffectiveFee(baseFee), new(big.Int).Mul(wantPrice, gas)), "effective fee = effective price x gas")
 	zz.Assert(zz.BigEq(txData.EffectiveCost(baseFee), new(big.Int).Add(new(big.Int).Mul(wantPrice, gas), tx.Value())), "effective cost = effective fee + value")
+	zz.Reach("end")
+}
+
+// VerifC18_RecordedHash: the hash a message records is a string; a message that passes ValidateBasic records exactly the
+// canonical hash of the transaction it carries (lower-case hex, 0x prefix, 32 bytes) - not merely some spelling that parses
+// to the same bytes. The string is what events, the indexer and the JSON-RPC lookups compare with.
+func VerifC18_RecordedHash() {
+	to := common.HexToAddress("0xAbCdEf0123456789abcdef0123456789ABCDEF01")
+	var tx *ethtypes.Transaction
+	switch zz.Choose("txType", 3) {
+	case 0:
+		tx = ethtypes.NewTx(&ethtypes.LegacyTx{Nonce: 1, GasPrice: big.NewInt(7), Gas: 21000, To: &to, Value: big.NewInt(1), V: big.NewInt(27), R: big.NewInt(1), S: big.NewInt(1)})
+	case 1:
+		tx = ethtypes.NewTx(&ethtypes.AccessListTx{ChainID: big.NewInt(11235), Nonce: 1, GasPrice: big.NewInt(7), Gas: 21000, To: &to, Value: big.NewInt(1), V: big.NewInt(0), R: big.NewInt(1), S: big.NewInt(1)})
+	default:
+		tx = ethtypes.NewTx(&ethtypes.DynamicFeeTx{ChainID: big.NewInt(11235), Nonce: 1, GasTipCap: big.NewInt(1), GasFeeCap: big.NewInt(7), Gas: 21000, To: &to, Value: big.NewInt(1), V: big.NewInt(0), R: big.NewInt(1), S: big.NewInt(1)})
+	}
+	msg := &MsgEthereumTx{}
+	if err := msg.FromEthereumTx(tx); err != nil {
+		panic(err)
+	}
+	canonical := tx.Hash().Hex()
+	zz.Assert(msg.Hash == canonical, "wrapping records the canonical hash")
+	switch zz.Choose("spelling", 5) {
+	case 1:
+		msg.Hash = "0x" + strings.ToUpper(canonical[2:])
+	case 2:
+		msg.Hash = canonical[2:]
+	case 3:
+		msg.Hash = "0xdeadbeef" + canonical[2:]
+	case 4:
+		msg.Hash = "0x" + strings.Repeat("0", 64)
+	}
+	err := msg.ValidateBasic()
+	if err == nil {
+		zz.Assert(msg.Hash == msg.AsTransaction().Hash().Hex(), "a message accepted by ValidateBasic records exactly the canonical Ethereum hash")
+		zz.Reach("accepted")
+	} else {
+		zz.Reach("?rejected")
+	}
 	zz.Reach("end")
 }
